@@ -59,15 +59,19 @@ def gen_program(rnd, width, length):
                 else:
                     args.append(("w", rnd.randrange(n_wires)))
             meta = rnd.choice([None, None, {"k": rnd.randint(0, 5)}, {}])
-            prog.append(("add", arity, args, meta, rnd.random() < 0.3))
+            # sometimes an operation with fewer outputs than inputs: an index is still rebound to "the output at the argument's position"
+            n_out = arity - 1 if (arity > 1 and rnd.random() < 0.25) else arity
+            prog.append(("add", arity, args, meta, rnd.random() < 0.3, n_out))
             n_wires += arity
     prog.append(rnd.choice([("set_tracked_outputs",), ("set_indexed_outputs", [rnd.choice([("i", i) for i, p in enumerate(shadow) if p] + [("w", 0)]) for _ in range(rnd.randint(0, 3))])]))
     return prog
 
 
-def make_op(arity):
+def make_op(arity, n_out=None):
     import hugr.ops as O
     import hugr.tys as T
+    if n_out is not None and n_out != arity:
+        return O.Custom(f"op{arity}to{n_out}", T.FunctionType([T.Bool] * arity, [T.Bool] * n_out), extension="test.ext")
     if arity == 1:
         return O.Noop(T.Bool)
     # an n-in n-out op: DFG-free choice -> use a custom op through MakeTuple is 1-out; use std logic for 2? keep generic:
@@ -140,30 +144,57 @@ def run_program(prog, width):
             if list(t.tracked) != before or t.hugr.num_nodes() != nb:
                 return f"step {k}: failed {kind} changed the builder"
         elif kind == "add":
-            _, arity, args, meta, via_extend = st
-            op_t, op_e = make_op(arity), make_op(arity)
+            _, arity, args, meta, via_extend, n_out = st
+            op_t, op_e = make_op(arity, n_out), make_op(arity, n_out)
             targs = [a[1] if a[0] == "i" else wires_t[a[1]] for a in args]
             eargs = [wires_e[shadow[norm(a[1])]] if a[0] == "i" else wires_e[a[1]] for a in args]
+            def both(ft, fe):
+                """run the step on both builders; an index bound to a port the operation does not have makes both raise alike"""
+                rt = re_ = None
+                try:
+                    rt = ft()
+                except Exception as ex:  # noqa: BLE001
+                    rt = ex
+                try:
+                    re_ = fe()
+                except Exception as ex:  # noqa: BLE001
+                    re_ = ex
+                return rt, re_
             if via_extend and meta is None:
-                (nt,) = t.extend(op_t(*targs))
-                (ne,) = e.extend(op_e(*eargs))
+                rt, re_ = both(lambda: t.extend(op_t(*targs))[0], lambda: e.extend(op_e(*eargs))[0])
             else:
-                nt = t.add(op_t(*targs), metadata=meta)
-                ne = e.add(op_e(*eargs), metadata=meta)
+                rt, re_ = both(lambda: t.add(op_t(*targs), metadata=meta), lambda: e.add(op_e(*eargs), metadata=meta))
+            if isinstance(rt, Exception) or isinstance(re_, Exception):
+                if type(rt) is type(re_):
+                    return None          # both refuse the same way (a wire naming a port that does not exist): equivalent, nothing more to compare
+                return f"step {k}: the tracked builder gave {rt!r}, the explicit program {re_!r}"
+            nt, ne = rt, re_
             if nt.idx != ne.idx:
                 return f"step {k}: node index {nt.idx} vs explicit {ne.idx}"
             base = len(wires_t)
-            wires_t += [nt.out(j) for j in range(arity)]
-            wires_e += [ne.out(j) for j in range(arity)]
+            from hugr.hugr.node_port import OutPort
+            wires_t += [OutPort(nt, j) for j in range(arity)]        # ports named directly: the oracle does not go through Node.out
+            wires_e += [OutPort(ne, j) for j in range(arity)]
             for pos, a in enumerate(args):
                 if a[0] == "i":
                     shadow[norm(a[1])] = base + pos
-        elif kind == "set_tracked_outputs":
-            t.set_tracked_outputs()
-            e.set_outputs(*[wires_e[s] for s in shadow if s is not None])
-        elif kind == "set_indexed_outputs":
-            t.set_indexed_outputs(*[a[1] if a[0] == "i" else wires_t[a[1]] for a in st[1]])
-            e.set_outputs(*[wires_e[shadow[norm(a[1])]] if a[0] == "i" else wires_e[a[1]] for a in st[1]])
+        elif kind in ("set_tracked_outputs", "set_indexed_outputs"):
+            def run(f):
+                try:
+                    f()
+                    return None
+                except Exception as ex:  # noqa: BLE001
+                    return ex
+            if kind == "set_tracked_outputs":
+                rt = run(lambda: t.set_tracked_outputs())
+                re_ = run(lambda: e.set_outputs(*[wires_e[s] for s in shadow if s is not None]))
+            else:
+                rt = run(lambda: t.set_indexed_outputs(*[a[1] if a[0] == "i" else wires_t[a[1]] for a in st[1]]))
+                re_ = run(lambda: e.set_outputs(*[wires_e[shadow[norm(a[1])]] if a[0] == "i" else wires_e[a[1]] for a in st[1]]))
+            if rt is not None or re_ is not None:
+                if type(rt) is type(re_):
+                    return None      # a wire naming a port that does not exist is refused alike by both
+                return f"step {k}: the tracked builder gave {rt!r}, the explicit program {re_!r}"
         why = same_table(k)
         if why:
             return why
